@@ -15,7 +15,14 @@ from core import fbits_raw
 
 MODULE = "DfolsVerif.Properties.C12"
 BUILD_TARGETS = ["DfolsVerif.Driver.TrsDrv"]     # what lean/TrsMain.lean imports
+def pre_build(ctx):
+    import gen_trsclip
+    gen_trsclip.regenerate(ctx)
+
+
 THEOREMS = [
+    "Dfols.C12.gen_dWithinBounds_eq",
+    "Dfols.C12.C12_src_returns_clipped",
     "Dfols.C12.trsbox_box",
     "Dfols.C12.trsbox_box_exact",
     "Dfols.C12.trsbox_returns_clipped",
